@@ -103,6 +103,12 @@ CELER_FUNCTION Interaction IoniFinalStateHelper::operator()(Engine& rng)
     real_type costheta = electron_energy_
                          * (inc_energy_ + inc_mass_ + electron_mass_)
                          / (momentum * inc_momentum_);
+    if (costheta > 1)
+    {
+        // Forward emission at the kinematic maximum: rounding can push the
+        // cosine a few ulp above one, which would give a NaN direction
+        costheta = 1;
+    }
     CELER_ASSERT(costheta <= 1);
 
     // Sample and save outgoing secondary data
